@@ -116,7 +116,7 @@ def build(spec: dict):
     backing = spec.get("backing")
     if backing and backing.get("format"):
         known.append(ext_bytes(EXT_BACKING_FORMAT, backing["format"].encode()))
-    if use_df:
+    if use_df and spec.get("data_file_named", True):  # the name extension is optional: the caller may supply the data file
         known.append(ext_bytes(EXT_DATA_FILE, spec.get("data_file_name", "data.raw").encode()))
     extra = [ext_bytes(m, bytes.fromhex(p)) for m, p in spec.get("extensions", [])]
     exts = extra + known if spec.get("ext_order") == "after" else known + extra
@@ -385,7 +385,7 @@ def build(spec: dict):
     meta = {
         "size": size, "cluster_size": cs, "l1_size": l1_size, "l1_table_offset": offsets["l1"], "version": version,
         "backing_name": backing["name"] if backing else None, "backing_format": backing.get("format") if backing else None,
-        "data_file_name": spec.get("data_file_name", "data.raw") if use_df else None,
+        "data_file_name": spec.get("data_file_name", "data.raw") if use_df and spec.get("data_file_named", True) else None,
         "extensions": [(m, bytes.fromhex(p)) for m, p in spec.get("extensions", [])],
         "snapshots": snap_meta, "header_length": hlen, "incompatible": incompat if version == 3 else 0,
         # header + extensions + backing name, L1 table(s), every L2 table, snapshot table (refcounts are not mapping metadata)
